@@ -264,7 +264,7 @@ theorem valOf_like (hf : f.WF) (h : LikeExport xe f c p q t uo) : Agree (valOf x
   unfold exportData
   by_cases h1 : f.nvdim = 1
   · have h2 : ¬ (1 < f.nvdim) := by omega
-    simp only [h1, if_true, h2, if_false]
+    simp only [h1, if_true]
     have hs : f.data.shape = f.mesh.n ++ [1] := by rw [hf.shape, h1]
     refine ⟨?_, ?_⟩
     · show f.data.shape.dropLast ++ [1] = f.data.shape
